@@ -31,6 +31,10 @@ RULE = (
     "nity string and switches it by configure()."
     " Foreign error responses vary their error-index (0, 1, beyond the list, -1) and bindings"
     " (echoed, absent)."
+    " Scenarios: two requests with different ids in flight on one client get each other's res"
+    "ponses (neither may return data); 40 reconfigure(credentials=<short-lived object>) block"
+    "s with a collection between them (echo of the current community accepted, the previous o"
+    "ne refused)."
 )
 ASSUMPTIONS = [
     "the agent's engine clock is a separate frozen clock, so stepping the client's clock does not touch timeliness (C12)",
